@@ -143,6 +143,10 @@ def _run(spec, world, rng, r, base):
         text = rng.choice(TEXTS) if rng.random() < 0.7 else "".join(
             chr(rng.choice([rng.randint(0, 0x7f), rng.randint(0x80, 0x2fff), rng.randint(0x1f300, 0x1f5ff)])) for _ in range(rng.randint(1, 60)))
         text = text.replace("\ud800", "?")
+        from ..cli_work import ANSWERS
+        del ANSWERS[:]
+        if text == "":
+            ANSWERS.append("")      # an empty --text makes the sender prompt: type an empty line
         sa = mkargs(text=text, code=code, transit_helper=helper, listen=listen)
         desc = {"kind": "text", "text": text}
     else:
